@@ -871,6 +871,18 @@ func (e *Env) call(n *ECall) TV {
 		return TV{S: t, Sort: sInt, Ty: intT}
 	case "runesPrefix":
 		return TV{S: vc.runePrefix(arg(0).S, arg(1).S), Sort: sInt, Ty: intT}
+	case "cast":
+		// cast(x, type T): reinterpret a reference (ghost `ref` values) as a typed pointer
+		v := arg(0)
+		tl, ok := n.Args[1].(*ETypeLit)
+		if !ok {
+			e.fail("cast(x, type T)")
+		}
+		t, sortS := e.resolveType(tl.Ty)
+		if sortS != v.Sort {
+			e.fail("cast between sorts %s and %s", v.Sort, sortS)
+		}
+		return TV{S: v.S, Sort: sortS, Ty: t}
 	case "same":
 		// structural (bit-level for floats) equality
 		a, b := arg(0), arg(1)
